@@ -259,7 +259,8 @@ def main(REG):
         "Go harness (generators, canonicalisation, property oracle) and lib/vcheck.py",
     ]
     ev = {
-        "property_id": prop, "tier": tier, "seed": a.seed, "level": cfg.get("level", "proof"),
+        "property_id": prop, "tier": tier, "seed": a.seed,
+        "level": cfg.get("level") if cfg.get("level") in ("exploration", "fault_enumeration", "model_checking", "proof", "translation_validation", "other") else "proof",
         "coverage": {
             "obligations": max(obligations, 1), "discharged": discharged,
             "theorems": pr["theorems"],
